@@ -212,6 +212,30 @@ class Undecided(Infra):
     """solver time-out / resource limit: undecided, unless a witness search finds a failing input on the real code"""
 
 
+def _is_known_input(unit, fail):
+    """does a `known:` line of known-findings.txt with an input={...} describe this failing input of the witness search used by `unit`?"""
+    path = os.path.join(ROOT, "known-findings.txt")
+    if not os.path.exists(path):
+        return False
+    owners = {unit["name"], unit.get("witness_from", unit["name"])}
+    for line in open(path):
+        line = line.strip()
+        if not line.startswith("known:"):
+            continue
+        body = line[len("known:"):].partition(" :: ")[0]
+        mo = re.search(r"obligation=(\S+?)/", body)
+        mi = re.search(r"\s+input=(\{.*\})\s*$", body)
+        if not mo or not mi or mo.group(1) not in owners:
+            continue
+        try:
+            inp = json.loads(mi.group(1))
+        except Exception:
+            continue
+        if all(str(fail.get(k)) == str(v) for k, v in inp.items()):
+            return True
+    return False
+
+
 def decide_verus_unit(unit, tier, workdir):
     """returns dict with obligations (list), failures (list), infra problems raise Infra"""
     from . import witness as W
@@ -222,7 +246,10 @@ def decide_verus_unit(unit, tier, workdir):
         w = W.run_witness(unit, seed)
         if w is None or not w["fails"]:
             raise
-        fails = w["fails"]
+        # inputs already recorded as known findings of the unit that owns the search are not news: an undecided unit must not turn them into an alarm
+        fails = [f for f in w["fails"] if not _is_known_input(unit, f)]
+        if not fails:
+            raise
         fn = fails[0].get("fn", "?")
         return {
             "unit": unit["name"], "backend": "verus", "cmd": w["cmd"], "wall": 0.0, "smt_ms": 0, "assumed": [], "dropped": [], "rule_uses": {},
